@@ -20,13 +20,27 @@ func verifYAML(enable bool, list []string) []byte {
 
 // VerifReload rewrites the whitelist file with a solver-chosen content and runs the real reload
 // (parseAuthIp, what the file watcher calls). It returns the content it wrote.
-func VerifReload(a *AuthIp) (enable bool, listed [3]bool) {
+func VerifReload(a *AuthIp) (enable bool, listed [3]bool) { return VerifReloadLines(a, false) }
+
+// VerifReloadLines: with lines == true the file has three list lines, each empty or any of the three
+// addresses - so an address may be listed twice (a copy/paste slip) and the number of lines says
+// nothing about the number of addresses.
+func VerifReloadLines(a *AuthIp, lines bool) (enable bool, listed [3]bool) {
 	enable = verifrt.Concretize(verifrt.Ite(verifrt.Bool("enable"), 1, 0)) == 1
 	var list []string
-	for i, ip := range verifIPs {
-		listed[i] = verifrt.Concretize(verifrt.Ite(verifrt.Bool("listed"), 1, 0)) == 1
-		if listed[i] {
-			list = append(list, ip)
+	if lines {
+		for l := 0; l < 3; l++ {
+			if k := verifrt.Choice("line", 4); k > 0 {
+				listed[k-1] = true
+				list = append(list, verifIPs[k-1])
+			}
+		}
+	} else {
+		for i, ip := range verifIPs {
+			listed[i] = verifrt.Concretize(verifrt.Ite(verifrt.Bool("listed"), 1, 0)) == 1
+			if listed[i] {
+				list = append(list, ip)
+			}
 		}
 	}
 	verifrt.PutFile(a.name, verifYAML(enable, list))
@@ -44,12 +58,13 @@ func VerifNewAuthIp() *AuthIp {
 
 // HarnessC18: after any history of `reloads` rewrites of the whitelist file, the admitted set is
 // exactly what the LAST content says.
-func HarnessC18(reloads int) {
+//   dupAt: the (1-based) rewrite whose list is written line by line with possible duplicates (0: none)
+func HarnessC18(reloads, dupAt int) {
 	a := VerifNewAuthIp()
 	var enable bool
 	var listed [3]bool
 	for r := 0; r < reloads; r++ {
-		enable, listed = VerifReload(a)
+		enable, listed = VerifReloadLines(a, r+1 == dupAt)
 	}
 	for i, ip := range verifIPs {
 		got := IpMap.Validate(ip)
@@ -61,5 +76,5 @@ func HarnessC18(reloads int) {
 }
 
 func init() {
-	verifrt.Register("HarnessC18", func(p []int64) { HarnessC18(int(p[0])) })
+	verifrt.Register("HarnessC18", func(p []int64) { HarnessC18(int(p[0]), int(p[1])) })
 }
